@@ -863,6 +863,10 @@ func (x *Exec) evalCall(c *evalCtx, call ECall) (Val, error) {
 			}
 		}
 		return boolV(Gt(r, st.LoopWM)), nil
+	case "mutexHeld":
+		// mutexHeld(m): ghost lock counter of the mutex at address m (0: nothing held by this call)
+		x.mxRegister()
+		return intV(Select(x.heapCur(st, mxHeld, arrSort(SInt, SInt)), a[0].T, SInt)), nil
 	case "fromReader":
 		// fromReader(b): the bytes were produced by a complete Read of an io.Reader (the random reader)
 		x.ufun("fromReader", []string{SStr}, SBool)
